@@ -21,6 +21,12 @@ def spaces(ctx):
         for q in small:
             if (len(p) + len(q)) % 2 == 0 or ctx.tier == "thorough":
                 out.append({"a": np.array(p), "b": np.array(q, dtype=float)})
+    # pairwise distinct values that need the full double precision to be told apart (large magnitudes with a small step): a lookup done
+    # in a narrower float type collapses them
+    for arr in (np.arange(2 ** 24, 2 ** 24 + 6), np.arange(1_700_000_000, 1_700_000_012)[::-1].copy(), 2400.0 + np.arange(10) / 16384.0,
+                np.array([2.0 ** 40 + k for k in (3, 0, 2, 1)]), -1.0e9 + np.arange(7) * 0.5):
+        out.append({"a": np.array(arr)})
+    out.append({"a": 1.0e6 + np.arange(5) / 4096.0, "b": np.arange(3)})
     # dimensions holding one value at several indices (outside C20's quantifier: only the K-units run on them, the model and the code
     # must still agree -- both take the FIRST index of a repeated value)
     for arr in ([4, 2, 5, 2, 1, 3], [1, 1], [1, 1, 2, 2, 3, 4, 6, 10], [3.0, 1.5, 3.0], [7, 7, 7]):
